@@ -212,6 +212,7 @@ def gen_ops(rng, backend, A):
     """operations generated against the evolving key set (tracked abstractly)"""
     cols = [c["name"] for c in A["columns"]]
     dtypes = {c["name"]: c["dtype"] for c in A["columns"]}
+    dtypes.update({i["name"]: i["dtype"] for i in A["index"]})
     idx = [i["name"] for i in A["index"]]
     ops = []
     kinds = ["add", "remove", "update", "updateMany", "rename", "select"]
@@ -229,7 +230,16 @@ def gen_ops(rng, backend, A):
             extra = [gen_component(rng, backend, nm) for nm in pick]
             if rng.random() < 0.3:   # a Column constructed without a name / with another name
                 extra[0]["name"] = rng.choice([None, "zz"])
-            ops.append({"op": "add", "keys": pick, "extra": extra})
+            reuse = None
+            r_ = rng.random()
+            if r_ < 0.15 and len(pick) >= 2:
+                reuse = "same-object"                      # one Column object passed under several names
+                extra = [extra[0]] * len(pick)
+            elif r_ < 0.3 and cols:
+                src_ = rng.choice(cols)
+                reuse = "receiver:" + src_                 # a column of the receiver itself as the template
+                extra = [dict(e, dtype=dtypes.get(src_, e["dtype"])) for e in extra]   # (data of the new column follows it)
+            ops.append({"op": "add", "keys": pick, "extra": extra, "reuse": reuse})
             for nm, e in zip(pick, extra):
                 if nm not in cols:
                     cols.append(nm)
@@ -365,6 +375,12 @@ def gen_case(rng, backend="pandas"):
 def apply_real(pa, backend, S, op):
     k = op["op"]
     if k == "add":
+        reuse = op.get("reuse")
+        if reuse == "same-object":
+            one = pa.Column(**real_kwargs(pa, op["extra"][0]))
+            return S.add_columns({key: one for key in op["keys"]})
+        if reuse and reuse.startswith("receiver:") and reuse.split(":", 1)[1] in S.columns:
+            return S.add_columns({key: S.columns[reuse.split(":", 1)[1]] for key in op["keys"]})
         return S.add_columns({key: pa.Column(**real_kwargs(pa, e)) for key, e in zip(op["keys"], op["extra"])})
     if k == "remove":
         return S.remove_columns(list(op["names"]))
@@ -399,8 +415,13 @@ def model_op(pa, backend, S, op):
     k = op["op"]
     if k == "add":
         extra = []
+        reuse = op.get("reuse")
+        src = reuse.split(":", 1)[1] if (reuse and reuse.startswith("receiver:")) else None
         for key, e in zip(op["keys"], op["extra"]):
-            extra.append([key, fp_component(pa.Column(**real_kwargs(pa, e)))])
+            if src is not None and S is not None and src in S.columns:
+                extra.append([key, fp_component(S.columns[src])])      # the template as it is *before* the call
+            else:
+                extra.append([key, fp_component(pa.Column(**real_kwargs(pa, e)))])
         return {"op": "add", "extra": extra}
     if k == "update":
         dt = canon("dtype", S.columns[op["name"]].dtype) if (S is not None and op["name"] in S.columns) else "None"
